@@ -45,6 +45,7 @@ func main() {
 	runFlipped()
 	runSymbols()
 	runGrayRows()
+	runBinHistories()
 	chk.Finish()
 }
 
@@ -229,6 +230,11 @@ func replay(path string) {
 		mc.LoadReplay(path, &c)
 		fmt.Printf("replay grey row %v (%s, %s)\n", c.Row, c.Source, c.Bin)
 		grayRowOne(l, c)
+	case "binhist":
+		var c binHistCase
+		mc.LoadReplay(path, &c)
+		fmt.Printf("replay binariser history %+v\n", c)
+		binHistOne(l, c)
 	case "bin":
 		var c bcase
 		mc.LoadReplay(path, &c)
